@@ -12,6 +12,12 @@ pub struct StackFrameAttachments {
 }
 pub struct DehydratedStackTrace;
 impl SteelErr {
+    pub fn new(kind: ErrorKind, _message: String) -> Self {
+        SteelErr { kind }
+    }
+    pub fn with_span(self, _s: Span) -> Self {
+        self
+    }
     pub fn with_stack_trace(self, _t: DehydratedStackTrace) -> Self {
         self
     }
